@@ -154,6 +154,14 @@ def run(ctx):
         if isinstance(st, ast.FunctionDef):
             if any(isinstance(c, ast.Call) and dotted(c.func) == 'testreader' for c in ast.walk(st)):
                 checker_names.add(st.name)
+    # wrappers: a function of the module that itself calls <reader>.isMine(...) or testreader(...) is an acceptance test
+    for fq, ff in src.mod(REG).functions.items():
+        if '.' in fq or ff is g:
+            continue
+        if any(isinstance(c, ast.Call) and ((isinstance(c.func, ast.Attribute) and c.func.attr == 'isMine' and (c.args or c.keywords)) or dotted(c.func) == 'testreader')
+               for c in ast.walk(ff)) and any(isinstance(r_, ast.Return) for r_ in ast.walk(ff)):
+            checker_names.add(fq)
+    from .. import paths as _paths
     nret = 0
     for st in iter_stmts(g.body):
         if not isinstance(st, ast.Return) or st.value is None or '<locals>' in getattr(st, '_q', ''):
@@ -172,8 +180,9 @@ def run(ctx):
             continue
         nret += 1
         asked = False
+        genv = _paths.dominating_env(g, st)
         for t in guards:
-            for c in ast.walk(t):
+            for c in ast.walk(_paths.subst(t, genv)):
                 if isinstance(c, ast.Call) and ((isinstance(c.func, ast.Name) and c.func.id in checker_names) or
                                                 (isinstance(c.func, ast.Attribute) and c.func.attr == 'isMine')) and (c.args or c.keywords):
                     asked = True
